@@ -43,7 +43,7 @@ CLAIMED = {
    technique="deterministic simulation with message-fault enumeration focused on the FRI opening proof, parameter swarm"),
  "C08": dict(level="fault_enumeration", ref="DESIGN §5 C08",
    text="MMCS-only pair: native MerkleTreeMmcs commit/open/verify versus in-circuit verify_batch_circuit on seeded matrix batches (equal and mixed heights, widths not aligned to the rate, cap height 0-2); honest openings at every index, then every opened value, sibling digest word, index bit and cap entry word altered one at a time; verdicts must agree.",
-   note="Arity-2 trees over KoalaBear/BabyBear width-16 Poseidon2 and arity-4 trees over KoalaBear width-32 Poseidon2 (verify_batch_circuit_arity4); non-hiding, base-field leaves (salted and extension-field leaves are exercised through C01/C07). Known finding (arity-4 cap layer ambiguity) in known_findings.json.",
+   note="Arity-2 trees over KoalaBear/BabyBear width-16 Poseidon2 and arity-4 trees over KoalaBear width-32 Poseidon2 (verify_batch_circuit_arity4); salted MerkleTreeHidingMmcs binary trees over KoalaBear (every salt element faulted); base-field leaves (extension-field leaves are exercised through the FRI commit-phase openings of C01/C07). Known finding (arity-4 cap layer ambiguity) in known_findings.json.",
    technique="deterministic simulation with exhaustive single-fault enumeration on Merkle openings, native verifier as oracle"),
  "C15": dict(level="fault_enumeration", ref="DESIGN §5 C15",
    text="Short, torn and lost parts of a message: every sequence node of the serialized proof is shortened, lengthened, emptied or made ragged, every optional part is flipped, every usize leaf is set to +1, -1, 0 and 2^62; each mutant that still deserializes is handed to the verification-circuit builder in a crash-isolated, memory-limited worker process; a panic or abort is a violation, and if the builder returns Ok the built circuit is run on the mutant and must agree with the native verdict on the mutant (a circuit that checks less than the native verifier is a violation).",
